@@ -331,6 +331,12 @@ theorem sat_Transaction_unmarshalJSON (p : Params) (hp : p.Good) (old : Option T
           have hid' : d.id = generateId p d.inputs.val d.outputs.val d.timestamp := by
             simp only [ne_eq, Decidable.not_not] at hid; exact hid.symm
           split
+          · simp
+          rename_i hmany
+          have hmany' : (elems d.outputs.val).length ≤ 65536 := by
+            have : ¬ (d.outputs.val.getD []).length > 65536 := hmany
+            simp only [elems]; omega
+          split
           · rename_i hlen
             split
             · simp
@@ -344,7 +350,7 @@ theorem sat_Transaction_unmarshalJSON (p : Params) (hp : p.Good) (old : Option T
                 subst ho
                 rw [hx]
                 simp only [List.getElem?_cons_zero, Res.sat_ok]
-                refine ⟨hI, hO, hd.2.2, hid', ?_, ?_⟩
+                refine ⟨hI, hO, hd.2.2, hid', ?_, ?_, hmany'⟩
                 · show elems d.outputs.val ≠ []
                   rw [hx']; simp
                 · intro _
@@ -354,7 +360,7 @@ theorem sat_Transaction_unmarshalJSON (p : Params) (hp : p.Good) (old : Option T
             · simp
             · rename_i h0
               simp only [Res.sat_ok]
-              refine ⟨hI, hO, hd.2.2, hid', ?_, ?_⟩
+              refine ⟨hI, hO, hd.2.2, hid', ?_, ?_, hmany'⟩
               · show elems d.outputs.val ≠ []
                 intro e
                 apply h0
@@ -383,6 +389,8 @@ theorem fresh_Transaction_unmarshalJSON (p : Params) (j : Json) (t : Transaction
         · split at h
           · simp at h
           · split at h
+            · simp at h
+            split at h
             · rename_i hlen
               split at h
               · simp at h
@@ -499,7 +507,7 @@ theorem sat_decodeTargets (j : Json) : Res.Sat (fun _ => True) (decodeTargets j)
 /-! ### consumers -/
 
 theorem Transaction.Canon.wf {p : Params} {t : Transaction} (h : Transaction.Canon p t) : t.WF := by
-  obtain ⟨hi, ho, _, _, hne, hr⟩ := h
+  obtain ⟨hi, ho, _, _, hne, hr, _⟩ := h
   refine ⟨?_, ?_, hne, ?_⟩
   · intro x hx e
     obtain ⟨a, ha, _⟩ := hi x hx
@@ -832,7 +840,10 @@ theorem allSome_any {α : Type} {P : α → Prop} {l : List (Option α)} (h : Al
 
 theorem rt_Transaction (p : Params) (t : Transaction) (hc : Transaction.Canon p t) (hf : t.Fresh) :
     Transaction.unmarshalJSON p none (encTransaction t) = .ok t := by
-  obtain ⟨hI, hO, hT, hid, hne, hrw⟩ := hc
+  obtain ⟨hI, hO, hT, hid, hne, hrw, hmany⟩ := hc
+  have a3 : ¬ lenOf t.outputs > 65536 := by
+    have : (t.outputs.getD []).length ≤ 65536 := hmany
+    simp only [lenOf]; omega
   have e1 : decSlice (elemInput p) Slice.nil (encSlice (encPtr encInput) t.inputs) = .ok ⟨t.inputs, []⟩ :=
     rt_decSlice _ _ _ (fun a ha => rt_elemInput p a (fun i hi => by
       obtain ⟨b, hb, hcb⟩ := hI a ha
